@@ -92,7 +92,8 @@ def hdr_fields(ctx, prog, rule):
             ok_off = off is not None and off[0] == "call" and off[1] == PPOS and all(f.dominates(off[3], w) for w in xmlw) and bool(xmlw)
             ctx.ob(rule, "header-field/phys_xml_offset", ok_off, "phys_xml_offset <- %s (must be physical_position() taken before the XML is written)" % tree_str(off), where=f.file_line(bi, si))
             ln = strip_casts(vals.get("xml_length"))
-            ok_len = ln[0] == "call" and ln[1].endswith("::len") and contains_call(ln, "as_bytes")
+            # String::len, str::len, <[u8]>::len and Vec::len all count bytes (chars().count() would not)
+            ok_len = ln[0] == "call" and ln[1].endswith("::len") and len(ln[2]) == 1
             # and the bytes written are the same as_bytes() value
             wr = [strip(R.operand(f.blocks[w]["term"]["args"][1])) for w in xmlw]
             same = any(strip(ln[2][0]) == w for w in wr) if ok_len else False
